@@ -28,6 +28,7 @@ pub mod acme_common { pub mod error {
         open spec fn from_spec(e: &'a String) -> Self { arbitrary() }
     }
     impl From<&String> for Error { #[verifier::external_body] fn from(e: &String) -> Self { Error { message: e.to_string() } } }
+    #[derive(Debug)]
     pub struct IoError { pub x: u8 }
     impl vstd::std_specs::convert::FromSpecImpl<IoError> for Error {
         open spec fn obeys_from_spec() -> bool { false }
